@@ -81,8 +81,10 @@ def compare_fresh(ck, p, hist_prefix, mode, cubic, extra_key=''):
     a, b = snapshot(p), snapshot(fresh)
     bad = [k for k in a if not close(a[k], b[k])]
     try:
-        eq = (p == fresh)
+        eq = (p == fresh) and not (p != fresh)
         hq = (hash(p) == hash(fresh))
+        fresh.length()
+        eq = eq and (p == fresh) and (fresh == p) and not (p != fresh)      # equality must not depend on what either side has cached
     except Exception as e:      # noqa
         eq, hq = 'exc ' + type(e).__name__, True
     if eq is not True:
@@ -147,7 +149,10 @@ def apply_op(p, h, cubic, rnd):
     elif op == 'SetEnd':
         p.end = complex(h['p'])
     elif op == 'QLength':
-        p.length()
+        if rnd.random() < 0.5:
+            p.length()
+        else:
+            p.length(error=rnd.choice([1e-3, 1e-1]), min_depth=rnd.choice([1, 5]))     # the first request after a mutation fixes what Path caches
     elif op == 'QPoint':
         q(lambda: p.point(0.5))
         q(lambda: p.T2t(0.3))
@@ -185,6 +190,12 @@ def replay_history(ck, hist, rnd, seen_prefix, cubic=False):
                         expected=h['after'], observed=got, driver='history')
             return False
         key += json.dumps(h)
+        # the warm object is queried after every operation so that every cache is populated before the next mutation
+        for warmq in (warm.length, lambda: warm.start, lambda: hash(warm), lambda: warm.point(0.5), lambda: warm == lazy):
+            try:
+                warmq()
+            except Exception:      # noqa
+                pass
         if key not in seen_prefix:
             seen_prefix.add(key)
             if not compare_fresh(ck, warm, hist[:n + 1], 'warm', cubic):
@@ -222,13 +233,15 @@ def segment_level(ck, rnd, n):
         if key not in memo:
             memo[key] = cls(*bpts).length(**kw)
         return memo[key]
-    BP = {1: (0j, 40 + 100j, 80 - 60j, 100 + 0j), 2: (0j, 10 + 60j, 130 + 40j, 100 + 20j)}
+    BPS = [{1: (0j, 40 + 100j, 80 - 60j, 100 + 0j), 2: (0j, 10 + 60j, 130 + 40j, 100 + 20j)},
+           {1: (0j, 40 + 100j, -1 + 2j, -1 + 2j), 2: (0j, 40 + 100j, -2 + 2j, -2 + 2j)}]      # second set: hash(-1) == hash(-2)
     done = 0
     for scipy_on in (False, True):
         old = sppath._quad_available
         sppath._quad_available = scipy_on and old
         try:
-            for hist in cases[:n]:
+            for hi_, hist in enumerate(cases[:n]):
+                BP = BPS[hi_ % 2]
                 ck.case(fp=('seg', scipy_on, json.dumps(hist)), nontrivial=sum(1 for h in hist if h['op'] == 'QLen') >= 2)
                 for cls in (sp.CubicBezier, sp.QuadraticBezier):
                     objs = {1: cls(*BP[1][:4 if cls is sp.CubicBezier else 3])}
